@@ -25,7 +25,7 @@ def _int01(a, what):
 class A(Adapter):
     name = "robot_warehouse"
     lean = "robot_warehouse"
-    serves = {"C01", "C04", "C05", "C07", "C10", "C12"}
+    serves = {"C01", "C04", "C05", "C07", "C10", "C11", "C12"}
     terminate_on_invalid = False
     max_steps = 70
     ops = ("state", "step", "judge", "instance", "bounds")
@@ -48,7 +48,9 @@ class A(Adapter):
             env = build()
             cfg = {"time_limit": int(env.time_limit), "sensor_range": int(env.sensor_range),
                    "highways": np.asarray(env.highways).astype(bool).tolist(),
-                   "goals": np.asarray(env.goals).astype(int).tolist()}
+                   "goals": np.asarray(env.goals).astype(int).tolist(),
+                   # the generator's arguments (robot_warehouse.instance: draw support, layout transliteration)
+                   "num_agents": na, "request_queue_size": q, "shelf_rows": sr, "shelf_columns": sc, "column_height": ch}
             out.append(Config(f"rware-{sr}x{sc}x{ch}-a{na}-r{rng_}-q{q}-t{tl}", build, cfg, num_agents=na))
         return out
 
@@ -118,6 +120,11 @@ class A(Adapter):
             moved = (int(s2.agents.position.x[i]), int(s2.agents.position.y[i])) != (x, y)
             out.append(not moved)
         return out
+
+    # ---------------------------------------------------------------- C11: the structural horizon is the time limit
+    # (Props.C11.rware_episode_last_by_limit / rware_episode_first_last; the only other cause of LAST is a collision)
+    def horizon(self, env):
+        return int(env.time_limit)
 
     # ---------------------------------------------------------------- policies
     def _courier(self, env, s, i, rng):
